@@ -14,6 +14,15 @@
 (*   CheckEnd  stop criteria; append the final state if nothing was saved  *)
 (*   Return    hand the list back                                          *)
 (*                                                                         *)
+(* and the older driver solve_legacy(), which is still public:             *)
+(*   LegacyCall   reset counters, copy the caller's field (the multistep   *)
+(*                history is NOT forgotten, no monitors, no stop criteria) *)
+(*   LegacyIter   calc_timestep; the MAIN step itself is clipped onto the  *)
+(*                next save time (so snapshots are trajectory points and   *)
+(*                clipped passes count as iterations); a pass whose step   *)
+(*                is not positive moves nothing but is counted             *)
+(*   LegacyReturn                                                          *)
+(*                                                                         *)
 (* Times live on an integer lattice (sixteenths).  Field data are TERMS:   *)
 (* the sequence of steps applied since the origin, each tagged with the    *)
 (* hidden multistep state it consumed.  Two data are equal iff they were   *)
@@ -118,7 +127,7 @@ ArgOf(c) == IF c.from = "f0" THEN f0
             ELSE LET o == hist[Len(hist)] IN o.res[Len(o.res)]
 
 Call ==
-  /\ pc = "idle" /\ script # <<>>
+  /\ pc = "idle" /\ script # <<>> /\ Head(script).op # "legacy"
   /\ LET c == Head(script) IN
      /\ (c.from = "last") => (Len(hist) > 0 /\ Len(hist[Len(hist)].res) > 0)
      /\ LET f == ArgOf(c) IN
@@ -220,14 +229,53 @@ Return ==
   /\ pc' = "idle"
   /\ UNCHANGED <<kind, prof, script, call, f0, arg, nit, itstart, stime, last, last0, qn, dt, isave, results, traj, mon>>
 
+-----------------------------------------------------------------------------
+(* solve_legacy: for each save time, iterate until the (clipped) step lands on it *)
+LegacyCall ==
+  /\ pc = "idle" /\ script # <<>> /\ Head(script).op = "legacy"
+  /\ LET c == Head(script) IN
+     /\ (c.from = "last") => (Len(hist) > 0 /\ Len(hist[Len(hist)].res) > 0)
+     /\ LET f == ArgOf(c) IN
+        /\ call' = c /\ arg' = f /\ script' = Tail(script)
+        /\ nit' = 0 /\ itstart' = 0 /\ stime' = f.t
+        /\ last0' = last /\ UNCHANGED last          \* nothing forgets the BDF2 history here
+        /\ mon' = <<>> /\ UNCHANGED monAcc
+        /\ qn' = f /\ results' = <<>> /\ isave' = 1 /\ traj' = <<>> /\ dt' = 0
+        /\ pc' = "lg_loop"
+  /\ UNCHANGED <<kind, prof, f0, hist>>
+
+LegacyIter ==
+  /\ pc = "lg_loop" /\ isave <= Len(call.tsave)
+  /\ LET d    == DtNow(qn.t)
+         clip == qn.t + d >= call.tsave[isave]
+         h    == IF clip THEN call.tsave[isave] - qn.t ELSE d
+         s    == IF h > 0 THEN StepTerm(kind, qn.t, qn.d, h, last) ELSE [t |-> qn.t, d |-> qn.d, last |-> last]
+     IN /\ dt' = h
+        /\ traj' = Append(traj, [t |-> qn.t, dt |-> d, d |-> qn.d])      \* the CFL step offered; h is what was taken
+        /\ nit' = nit + 1
+        /\ qn' = [t |-> s.t, it |-> qn.it, d |-> s.d]
+        /\ last' = s.last
+        /\ IF clip THEN /\ results' = Append(results, [t |-> s.t, it |-> qn.it, d |-> s.d])
+                        /\ isave' = isave + 1
+                   ELSE UNCHANGED <<results, isave>>
+  /\ UNCHANGED <<kind, prof, script, call, f0, arg, pc, itstart, stime, last0, mon, monAcc, hist>>
+
+LegacyReturn ==
+  /\ pc = "lg_loop" /\ isave > Len(call.tsave)
+  /\ hist' = Append(hist, Outcome)
+  /\ pc' = "idle"
+  /\ UNCHANGED <<kind, prof, script, call, f0, arg, nit, itstart, stime, last, last0, qn, dt, isave, results, traj, mon, monAcc>>
+
 Next == Call \/ Mon \/ Skip \/ PreSave \/ IterBegin \/ SideStep \/ MainStep \/ CheckEnd \/ Return
+        \/ LegacyCall \/ LegacyIter \/ LegacyReturn
 
 Spec == Init /\ [][Next]_vars
 
 -----------------------------------------------------------------------------
 (* Action-level facts (checked as action properties by TLC)                  *)
 MainAdvancesByDt == [][pc = "main" /\ pc' = "mon" => (qn'.t = qn.t + dt \/ "GearDoubleAdd" \in Deviations)]_vars
-NitCountsMainSteps == [][(nit' # nit) => ((pc = "main" /\ nit' = nit + 1) \/ (pc = "idle" /\ nit' = 0))]_vars
+NitCountsMainSteps == [][(nit' # nit) => ((pc \in {"main", "lg_loop"} /\ nit' = nit + 1) \/ (pc = "idle" /\ nit' = 0))]_vars
+LegacyNeverSteppsBack == [][pc = "lg_loop" /\ pc' = "lg_loop" => qn'.t >= qn.t]_vars
 CallerFieldUntouched == [][f0' = f0]_vars
 SaveIndexMonotone == [][isave' >= isave \/ pc = "idle"]_vars
 =============================================================================
